@@ -25,6 +25,8 @@ def obligations(tier, ctx):
                 continue  # no data line: nothing to deliver, covered by the matrix (empty / comment-only bodies)
             if n == 3 and tier != "quick" and kt.count("d1") > 1:
                 continue
+            if tier == "quick" and kt in (("d2", "d1"), ("d1", "d1")):
+                continue  # two data lines with the symbolic payload last: 120-150 s each, thorough tier only
             sp = [f"s{i}" for i in range(n)]
             cr = [f"c{i}" for i in range(n)]
             params = [(x, "bool") for x in sp + cr] + [("p1", "str")]
@@ -46,7 +48,7 @@ def obligations(tier, ctx):
                           family="(a) SSE body grammar vs WHATWG reference"))
     # (b) matrix, one POST
     for sse in (False, True):
-        for b in range(7 if sse else 9):
+        for b in range(7 if sse else 12):
             obs.append(Ob(name=f"post_{'sse' if sse else 'body'}{b}", params=[("status", "int"), ("ct", "int"), ("idsel", "int"), ("typed", "bool")],
                           pre=["200 <= status <= 599", "0 <= ct <= 3" if not sse else "ct == 0", "0 <= idsel <= 3"],
                           call=f"H.matrix1(status, ct, {b}, {sse}, 0, idsel, typed)", backend="P", timeout=300, family="(b) status x content-type x body x id"))
@@ -67,7 +69,7 @@ def obligations(tier, ctx):
             [(302, 0, 6, False, 0, 0), (200, 0, 7, False, 0, 1), (200, 0, 0, False, 0, 0)],
         ]
     for sse in (False, True):
-        for b in ((0, 3, 5) if tier == "quick" else range(7 if sse else 9)):
+        for b in ((0, 3, 5) if tier == "quick" else range(7 if sse else 12)):
             if sse and b == 5:
                 continue
             obs.append(Ob(name=f"session_{'sse' if sse else 'body'}{b}", params=[("status", "int"), ("ct", "int"), ("idsel", "int"), ("before", "bool")],
